@@ -160,6 +160,7 @@ static void tell_gvt(int th, double g)
 			rs_fail("C04 unsafe GVT: thread %d told %g while a message with timestamp %g is in MPI flight", th, g,
 			    fmpi_min_in_flight_time());
 	}
+	rs_logf("[t%d gvt#%u=%g] ", th, k, g);
 	gvt_seq[th][k] = g;
 	gvt_n[th] = k + 1;
 	gvt_last[th] = g;
@@ -636,6 +637,25 @@ static void body(void)
 		rs_obs(lp_commit_idx[l]);
 }
 
+/* context for deadlock / livelock verdicts: who is already in the shutdown code, what is still queued */
+static void describe(char *buf, size_t cap)
+{
+	int drain = 0, queued = 0;
+	double mn = INFINITY;
+	for(int t = 0; t < MAXTH; ++t)
+		drain += left_loop[t];
+	for(unsigned i = 0; i < MAXMSG; ++i)
+		if(MR[i].p && MR[i].queued && MR[i].alloc) {
+			queued++;
+			if(MR[i].p->dest_t < mn)
+				mn = MR[i].p->dest_t;
+		}
+	if(queued)
+		snprintf(buf, cap, "threads_in_shutdown=%d queued=%s min_queued_t=%g stop=%d", drain, "yes", mn, stop_called);
+	else
+		snprintf(buf, cap, "threads_in_shutdown=%d queued=no stop=%d", drain, stop_called);
+}
+
 static int fine(const char *file)
 {
 	if(!strcmp(P_fine, "none"))
@@ -672,6 +692,7 @@ static const struct rs_harness H = {
     .body = body,
     .fine_file = fine,
     .on_op = on_op,
+    .describe = describe,
     .counter_names = {[C_ROLLBACK] = "rollbacks", [C_ANTI_LOCAL] = "anti_messages", [C_ANTI_BEFORE_PROC] = "anti_extracted_unprocessed",
 	[C_ANTI_AFTER_PROC] = "anti_extracted_processed", [C_SILENT] = "silent_executions", [C_FOSSIL_RELEASE] = "fossil_releases",
 	[C_GVT_ROUNDS] = "gvt_reports", [C_COMMITTED] = "committed_events", [C_CKPT] = "checkpoints", [C_EVENTS] = "forward_events",
